@@ -370,6 +370,47 @@ def exact_need(ctx, facts, cfg):
             if a[0] == 'bin' and a[1] == 'Add' and ((is_len(a[2]) and a[3] == ('const', 63)) or (is_len(a[3]) and a[2] == ('const', 63))):
                 return True
         return False
+    # what the store's resize makes of its two parameters: the new Vec length as an expression over them
+    store_len = None
+    rz0 = RL.fn.get('store.resize')
+    if rz0:
+        f0 = core.inlined_fn(facts, rz0, private, tag='need')
+        b0 = f0.body
+        flds0 = {}
+        for blk in b0.blocks:
+            for st in blk['stmts']:
+                if st['k'] == 'assign' and st['lhs']['l'] == 1 and len(st['lhs']['p']) == 2 and st['lhs']['p'][0] == '*':
+                    flds0[st['lhs']['p'][1].get('f')] = strip(core.strip_var_ids(b0.canon_rv(st['rv'])))
+
+        def res0(x):
+            if isinstance(x, tuple) and x and x[0] == 'field' and x[1] == ('deref', ('param', 'self')) and x[2] in flds0:
+                return res0(flds0[x[2]])
+            if isinstance(x, tuple):
+                return tuple(res0(y) for y in x)
+            return x
+        for bb, t in b0.calls():
+            if re.search(r'Vec::<.*>::resize$', t['callee'].get('path') or ''):
+                store_len = (res0(strip(core.strip_var_ids(b0.canon_op(t['args'][1])))), f0.param_names())
+    composite_ok = set()
+    def composite(sl, a1, a2):
+        """store length with the caller's arguments put in = work_count * ceil(shard_bytes / 64)"""
+        if sl is None or len(sl[1]) != 3:
+            return False
+        sub = {sl[1][1]: strip(a1), sl[1][2]: strip(a2)}
+
+        def sb(x):
+            if isinstance(x, tuple) and x and x[0] == 'param' and x[1] in sub:
+                return sub[x[1]]
+            if isinstance(x, tuple):
+                return tuple(sb(y) for y in x)
+            return x
+        c = sb(sl[0])
+        if not (isinstance(c, tuple) and c and c[0] == 'bin' and c[1] == 'Mul'):
+            return False
+        for x, y in ((c[2], c[3]), (c[3], c[2])):
+            if x == ('param', 'work_count') and is_ceil64(y):
+                return True
+        return False
     for side in ('enc', 'dec'):
         rp = RL.get(ctx, side + '.reset', R, cfg)
         rz = RL.get(ctx, 'store.resize', R, cfg)
@@ -387,6 +428,10 @@ def exact_need(ctx, facts, cfg):
         n += 1
         if strip(a1) != ('param', 'work_count'):
             ctx.violation(R, 'shard-count:%s' % side, '%s resizes the store to %s shards, not to its work_count parameter' % (rp.path, core.show(a1)), site=t['line'], fn=rp.path, cfg=cfg)
+        elif not is_ceil64(a2) and composite(store_len, a1, a2):
+            # the store takes the byte length and rounds it up itself: judged on the composition
+            composite_ok.add(side)
+            ctx.ok(R, '%s@%s' % (rp.path, cfg), {'shards': core.show(a1), 'bytes_per_shard': core.show(a2), 'store_allocates': core.show(store_len[0])})
         elif not is_ceil64(a2):
             ctx.violation(R, 'blocks-per-shard:%s' % side, '%s resizes the store to %s blocks per shard; only ceil(shard_bytes / 64) (div_ceil(64) or (n + 63) / 64) is exactly what a shard needs: '
                           'more makes equal-need configurations outgrow the allocation, less loses the tail' % (rp.path, core.show(a2)), site=t['line'], fn=rp.path, cfg=cfg)
@@ -416,6 +461,9 @@ def exact_need(ctx, facts, cfg):
                 if c[0] == 'bin' and c[1] == 'Mul' and len(pn) == 3 and {val(c[2]), val(c[3])} == {('param', pn[1]), ('param', pn[2])}:
                     good = True
                     ctx.ok(R, '%s@%s' % (rz, cfg), {'new_len': core.show(c)})
+                elif composite_ok == {'enc', 'dec'}:
+                    good = True
+                    ctx.ok(R, '%s@%s' % (rz, cfg), {'new_len': core.show(c), 'judged': 'composed with both callers: work_count * ceil(shard_bytes / 64)'})
                 else:
                     ctx.violation(R, 'store-len', 'the store is resized to %s blocks, not to shard_count * shard_len_64 of its parameters' % core.show(c), site=t['line'], fn=rz, cfg=cfg)
                     good = True
